@@ -288,8 +288,9 @@ class Analyzer:
         full_outputs = []
         out_heralds = self.circuit.heralds["output"]
         for state in outputs:
-            # Check output meets all post selection rules
-            if self.post_selection.validate(state):
+            # Check output meets all post selection rules, these are applied to
+            # a State as in the Sampler
+            if self.post_selection.validate(State(state)):
                 fo = add_heralds_to_state(state, out_heralds)
                 filtered_outputs += [State(state)]
                 full_outputs += [fo]
